@@ -68,6 +68,13 @@ def run(ck):
             j2["id"] = j["id"] + 5000000
             j2["api"] = "c"
             capi.append(j2)
+            if len(capi) % 3 == 0 and not j["op"]["k"].startswith("proc_") and j["op"]["k"] != "reopen":
+                # the same call with AT_FDCWD in place of the root descriptor: must be refused without touching anything
+                j3 = dict(j2)
+                j3["id"] = j["id"] + 6000000
+                j3["op"] = dict(j["op"], root_fd_raw=-100)
+                j3.pop("policy", None)
+                capi.append(j3)
     alljobs = base + capi
     byjob = {j["id"]: j for j in alljobs}
     stats = {"calls": 0, "panics": 0, "follow_sites": 0, "jobs": 0, "t1_ok": 0, "t1_bad": 0, "kinds": {}, "outcomes": {}}
